@@ -1,20 +1,23 @@
 import Pycoin.Model.KeyCtor
 /-!
 C10 — model of `Key.wif`, `network.wif_for_blob` (`pycoin/networks/bitcoinish.py`) and `ParseAPI.wif`
-(`pycoin/networks/ParseAPI.py`, with `parseable_str.parse_b58_double_sha256`).
+(`pycoin/networks/ParseAPI.py`, with `parse_b58_hashed`: `parseable_str.parse_b58_double_sha256`, or on the
+Groestlcoin family `GRSParseAPI.parse_b58_hashed` = `parse_b58_groestl`) and of the Groestlcoin symbol files' own
+`wif_for_blob` (`b2a_hashed_base58_grs(_wif_prefix + blob)`).
 
-Networks whose Base58Check uses the Groestl hash (`b58DoubleSha = false`) are outside this model.
+The checksum hash is the network's: `Network.hashWif` on the producing side, `Network.hashParse` on the parsing side
+(both found by probing, `translate/gen_networks.py`); see `Model/Base58Hash.lean`.
 -/
 namespace Pycoin.Wif
 open Pycoin.Sec Pycoin.KeyCtor
 open Pycoin.Curve (CurveParams)
 open Pycoin.Addr (Network)
 
-/-- `network.wif_for_blob(blob)`: `b2a_hashed_base58(_wif_prefix + blob)`; `None + blob` is a `TypeError` -/
+/-- `network.wif_for_blob(blob)`: `b2a_hashed_base58[_grs](_wif_prefix + blob)`; `None + blob` is a `TypeError` -/
 def wifForBlob (net : Network) (blob : Bytes) : Except Sec.Err Bytes :=
   match net.outWif with
   | none => .error .typeError
-  | some pfx => liftB58 (Base58.b2aHashed (pfx ++ blob))
+  | some pfx => liftB58 (Base58.b2aHashedK net.hashWif (pfx ++ blob))
 
 /-- `key.wif(is_compressed)`; `.ok none` is `None` (no secret exponent) -/
 def Key.wif (net : Network) (k : Key) (isCompressed : Option Bool) : Except Sec.Err (Option Bytes) :=
@@ -29,7 +32,7 @@ def Key.wif (net : Network) (k : Key) (isCompressed : Option Bool) : Except Sec.
 /-- `network.parse.wif(s)`; `.ok none` is `None`; `mul` computes `secret_exponent * generator` -/
 def parseWifWith (c : CurveParams) (mul : Int → Except Curve.Err Curve.Pt) (net : Network) (s : Bytes) :
     Except Sec.Err (Option Key) :=
-  match Base58.parseB58DoubleSha256 s, net.parseWif with
+  match Base58.parseB58HashedK net.hashParse s, net.parseWif with
   | some data, some pfx =>
     if pfx.isPrefixOf data then
       let data := data.drop pfx.length
